@@ -58,7 +58,7 @@ def run_tlc(module, cfg, workdir, env=None, workers=8, heap="6g", timeout=3600, 
     os.makedirs(workdir, exist_ok=True)
     meta = os.path.join(workdir, "tlc-" + module)
     shutil.rmtree(meta, ignore_errors=True)
-    cmd = ["java", "-XX:+UseParallelGC", f"-Xmx{heap}", "-Xss512m", f"-DTLA-Library={SPEC}",
+    cmd = ["java", "-XX:+UseParallelGC", f"-Xmx{heap}", "-Xss512m", "-Dfile.encoding=UTF-8", f"-DTLA-Library={SPEC}",
            "-cp", TLA_CP, "tlc2.TLC", "-workers", str(workers), "-metadir", meta, "-cleanup",
            "-noGenerateSpecTE", "-config", cfg] + list(extra)
     if not deadlock:
